@@ -63,3 +63,187 @@ def slots(template):
     """Split a format template into literal pieces and slots: ['lit', '{}', 'lit', ...]"""
     parts = re.split(r"(\{[^{}]*\})", template.replace("{{", "\x00").replace("}}", "\x01"))
     return [p.replace("\x00", "{").replace("\x01", "}") for p in parts if p != ""]
+
+
+# ---------------------------------------------------------------------------------------------------------------------------------------
+# What a printer writes, as text: the writes of a Display impl flattened to pieces (literal text and holes), so that rules can ask "what is
+# printed when <these facts> hold" instead of reading the writes one by one.  Spellings that print the same text give the same answer:
+# one write or several, a separator kept in a local (`let sep = if i > 0 { ", " } else { "" }`), a table printed through its own
+# `Format<T>` impl or through a match in place, named or positional placeholders.
+
+class Undecided(Exception):
+    pass
+
+
+class Text:
+    def __init__(self, ev, entries):
+        self.ev = ev
+        self.entries = entries      # [(conds, loop nest, pieces)]; conds: ((term, polarity), ..); pieces: str | ('hole', spec, term)
+
+    def only(self, keep):
+        """the part of the text written by the entries keep(loop nest, pieces) selects (conditions of the others are then never asked)"""
+        t = Text(self.ev, [e for e in self.entries if keep(e[1], e[2])])
+        t.ev_arms = self.ev_arms
+        return t
+
+    def under(self, decide):
+        """The text written when `decide` answers every condition met: [(loop nest, [pieces])], adjacent literal text joined.
+        decide(term) -> True / False / None; a None (nothing known) raises Undecided."""
+        segs = []
+        for conds, nest, pieces in self.entries:
+            take = True
+            for c, pol in conds:
+                r = self._decide(c, decide)
+                if r is None:
+                    raise Undecided(c)
+                if r is not pol:
+                    take = False
+                    break
+            if not take:
+                continue
+            if not segs or segs[-1][0] != nest:
+                segs.append((nest, []))
+            for p in pieces:
+                if isinstance(p, str) and segs[-1][1] and isinstance(segs[-1][1][-1], str):
+                    segs[-1][1][-1] += p
+                elif p != "":
+                    segs[-1][1].append(p)
+        return [(n, ps) for n, ps in segs if ps]
+
+    def _decide(self, c, decide):
+        if isinstance(c, tuple) and c[:1] == ("arm",) and len(c) == 3 and c[2] == "_":
+            # the catch-all arm is taken when no arm before it is
+            sibs = self.ev_arms.get(c[1])
+            if not sibs or any(s != sibs[0] for s in sibs):
+                return None
+            for pat, guarded in sibs[0]:
+                if pat == "_":
+                    return True
+                if guarded:
+                    return None
+                r = decide(("arm", c[1], pat))
+                if r is None:
+                    return None
+                if r:
+                    return False
+            return None
+        return decide(c)
+
+
+def string_value(t):
+    """The text a string-building term stands for, when it is built from literals only (`repeat_n("a", 2)` joined by " * " is "a * a")"""
+    def items(x):
+        if not isinstance(x, tuple):
+            return None
+        if x[:1] == ("list",) and all(isinstance(y, tuple) and y[:1] == ("lit",) and isinstance(y[1], str) for y in x[1]):
+            return [y[1] for y in x[1]]
+        if x[:2] == ("call", "iter::repeat_n") and len(x[2]) == 2 and x[2][0][:1] == ("lit",) and isinstance(x[2][0][1], str) \
+                and x[2][1][:1] == ("lit",) and isinstance(x[2][1][1], int) and not isinstance(x[2][1][1], bool):
+            return [x[2][0][1]] * x[2][1][1]
+        if x[:2] == ("call", "Iterator::take") and len(x[2]) == 2 and x[2][0][:2] == ("call", "iter::repeat") and len(x[2][0][2]) == 1 \
+                and x[2][0][2][0][:1] == ("lit",) and isinstance(x[2][0][2][0][1], str) and x[2][1][:1] == ("lit",) and isinstance(x[2][1][1], int):
+            return [x[2][0][2][0][1]] * x[2][1][1]
+        if x[:2] in (("call", "Itertools::intersperse"), ("call", "Iterator::intersperse")) and len(x[2]) == 2 and x[2][1][:1] == ("lit",) and isinstance(x[2][1][1], str):
+            inner = items(x[2][0])
+            if inner is None:
+                return None
+            out = []
+            for i_, y in enumerate(inner):
+                out += ([x[2][1][1]] if i_ else []) + [y]
+            return out
+        return None
+    if not isinstance(t, tuple):
+        return None
+    if t[:1] == ("lit",) and isinstance(t[1], str):
+        return t[1]
+    if t[:2] in (("call", "Itertools::join"), ("call", "slice::join")) and len(t[2]) == 2 and t[2][1][:1] == ("lit",) and isinstance(t[2][1][1], str):
+        inner = items(t[2][0])
+        return None if inner is None else t[2][1][1].join(inner)
+    if t[:2] in (("call", "Iterator::collect"), ("call", "String::from_iter"), ("call", "Vec::concat"), ("call", "slice::concat")) and len(t[2]) == 1:
+        inner = items(t[2][0])
+        return None if inner is None else "".join(inner)
+    inner = items(t)          # the evaluator drops `collect`: a sequence of pieces where text is expected is their concatenation
+    return None if inner is None else "".join(inner)
+
+
+def flat(fx, body, inline=(), setup=None):
+    """The Text of a printer body.  `inline`: the node types T whose own printer `Format<T>` is a table of words and is read in place.
+    setup(ev) configures the evaluator before the body is run (e.g. ev.loop_args to specialise a loop on one element)."""
+    from . import leaves
+    ev = sym.Eval(fx, inline_depth=0)
+    if setup:
+        setup(ev)
+    ev.function(body)
+    entries = []
+    arms = {}
+
+    def nrm(t, mapping):
+        return leaves.norm(leaves.replace(t, mapping))
+
+    def table_of(term):
+        ty = ev.ctor_types.get(term, "")
+        m = re.search(r"::Format<'_, (?:[\w:]+::)?(\w+)>$", ty)
+        if not (m and m.group(1) in inline and term[:2] == ("ctor", "Format")):
+            return None
+        c2 = [b_ for b_ in getattr(fx, "all_bodies", fx.body_list) if b_["name"] == "fmt"
+              and b_.get("impl", {}).get("trait", "") == "std::fmt::Display" and b_.get("impl", {}).get("self_ty", "") == ty]
+        if len(c2) != 1:
+            return None
+        b2 = c2[0]
+        e2 = sym.Eval(fx, inline_depth=0)
+        e2.function(b2, [term])
+        rows = []
+        for conds, loops, item in e2.out:
+            if loops or item[0] != "write" or item[2] or len(conds) != 1 or conds[0][0][:1] != ("arm",) or conds[0][1] is not True:
+                return None
+            rows.append((conds[0], item[1]))
+        for sc, sibs in e2.match_arms.items():
+            ev.match_arms.setdefault(sc, []).extend(sibs)
+        return rows or None
+
+    def expand(arg, spec):
+        """[(extra conditions, pieces)] for one argument"""
+        if spec == "{}" and string_value(arg) is not None:
+            return [((), [string_value(arg)])]
+        if isinstance(arg, tuple) and arg[:1] == ("if",) and len(arg) == 4:
+            a, b = expand(arg[2], spec), expand(arg[3], spec)
+            if all(isinstance(p, str) for _, ps in a + b for p in ps):
+                return [(((arg[1], True),) + cs, ps) for cs, ps in a] + [(((arg[1], False),) + cs, ps) for cs, ps in b]
+        if isinstance(arg, tuple) and arg[:1] == ("match",) and len(arg) == 3 and all(len(a_) == 2 for a_ in arg[2]):
+            rows = [(a_[0], expand(a_[1], spec)) for a_ in arg[2]]
+            if all(isinstance(p, str) for _, r in rows for _, ps in r for p in ps):
+                return [(((("arm", arg[1], pat), True),) + cs, ps) for pat, r in rows for cs, ps in r]
+        if spec == "{}":
+            rows = table_of(arg)
+            if rows:
+                return [((c,), [w]) for c, w in rows]
+        return [((), [("hole", spec, arg)])]
+
+    for conds, loops, item in ev.out:
+        if item[0] != "write":
+            continue
+        nest, mapping = leaves.loop_nest(loops)
+        item = sym.anon_format(item)
+        alts = [((), [])]
+        args = list(item[2])
+        for part in slots(item[1]):
+            if re.fullmatch(r"\{[^{}]*\}", part):
+                if not args:
+                    raise AnalysisGap("printer text: more placeholders than arguments in %r" % (item[1],))
+                ex = expand(args.pop(0), part)
+                alts = [(cs + cs2, ps + ps2) for cs, ps in alts for cs2, ps2 in ex]
+            else:
+                alts = [(cs, ps + [part]) for cs, ps in alts]
+        for cs, ps in alts:
+            allc = tuple((nrm(c_[0], mapping), c_[1]) for c_ in tuple(conds) + cs if len(c_) == 2)
+            entries.append((allc, tuple(leaves.norm(n) for n in nest), [p if isinstance(p, str) else ("hole", p[1], nrm(p[2], mapping)) for p in ps]))
+    t = Text(ev, entries)
+    # sibling arms, keyed by the normalised scrutinee as the conditions are
+    t.ev_arms = {}
+    for sc, sibs in ev.match_arms.items():
+        for mapping in [leaves.loop_nest(l)[1] for _, l, _ in ev.out] or [{}]:
+            t.ev_arms.setdefault(nrm(sc, mapping), [])
+            for s_ in sibs:
+                if s_ not in t.ev_arms[nrm(sc, mapping)]:
+                    t.ev_arms[nrm(sc, mapping)].append(s_)
+    return t
